@@ -19,6 +19,8 @@
 //! to `Host::log`.  A trap is recorded (never a process abort): afterwards the
 //! host answers leniently and the execution is marked violated.
 use crate::payload::{self, ItemAbi};
+#[allow(unused_imports)]
+use core::ptr;
 use crate::sched::choose;
 use std::cell::RefCell;
 use std::collections::BTreeMap;
@@ -193,16 +195,78 @@ pub struct Subtask {
     pub cancel_requested: bool,
     pub in_set: Option<u32>,
     pub dropped: bool,
-    /// harness token identifying the call (C21 scenarios)
+    /// harness token identifying the call (C21 scenarios); `Host::subcalls[token - 1]`
     pub token: u32,
+}
+
+/// One field of the lowered parameters of an async import call, as the host
+/// received it (flat values) or where it will find it (indirect parameters).
+#[derive(Clone, Debug, PartialEq, Eq)]
+pub enum PField {
+    /// scalar passed flat (value received with the call)
+    FlatU32 { got: u32, expect: u32 },
+    /// `Item`-like record passed flat as (id, ptr, len): the bytes are read when the callee starts
+    FlatItem { id: u32, ptr: usize, len: usize },
+    /// `own<resource>` handle passed flat: taken by the host when the callee starts
+    FlatOwn { handle: u32 },
+    MemU32 { addr: usize, expect: u32 },
+    /// canonical `ItemAbi` record in the parameter block
+    MemItem { addr: usize },
+    MemOwn { addr: usize },
+}
+
+#[derive(Copy, Clone, Debug, PartialEq, Eq, Default)]
+pub enum RKind {
+    #[default]
+    None,
+    U32,
+    /// `Item{id, tag}`: the host writes an `ItemAbi` whose list data comes from the guest allocator
+    Item,
+}
+
+/// Guest memory of one async import call as a host sees it.
+#[derive(Clone, Debug, Default)]
+pub struct SubMem {
+    /// harness-side id of the call (facts `sub.*` carry it)
+    pub cid: u32,
+    pub params: Vec<PField>,
+    pub results: usize,
+    pub rkind: RKind,
+    /// (address, size) of the parameter/result block (`(0, 0)`: none)
+    pub block: (usize, usize),
+}
+
+/// One async import call as the host saw it.
+#[derive(Clone, Debug, Default)]
+pub struct SubRec {
+    pub token: u32,
+    pub cid: u32,
+    pub task: u32,
+    /// 0: returned at once (no subtask handle)
+    pub handle: u32,
+    pub mem: SubMem,
+    /// statuses in the order the *guest* learnt them, with the channel
+    /// (`call` return value, `event`, `cancel` return value)
+    pub seen: Vec<(u32, &'static str)>,
+    /// host-side state changes in order
+    pub host: Vec<u32>,
+    /// ids (and resource handles, as `0x8000_0000 | h`) the host lifted from the parameters
+    pub params_read: Option<Vec<u32>>,
+    pub result_written: Option<u32>,
+    /// host accesses that found the guest memory invalid (freed block, corrupt element)
+    pub problems: Vec<String>,
+    pub cancels: u32,
+    pub drops: u32,
 }
 
 #[derive(Clone, Debug)]
 pub enum Obj {
-    Set { members: Vec<u32>, owner_shared: usize },
+    Set { members: Vec<u32>, owner_shared: usize, owner_task: u32 },
     End { shared: usize, side: Side },
     Subtask(Subtask),
     ErrCtx(String),
+    /// an `own<resource>` handle of a harness resource type (C21 parameters)
+    Res { id: u32 },
 }
 
 #[derive(Copy, Clone, PartialEq, Eq, Debug)]
@@ -226,6 +290,8 @@ pub struct Task {
     pub codes: Vec<u32>,
     pub is_block_on: bool,
     pub is_v1: bool,
+    /// `wasip3_task::ptr` (the runtime's `SharedTaskState`) most recently installed while this task ran
+    pub shared_ptr: usize,
 }
 
 #[derive(Copy, Clone, PartialEq, Eq, Debug)]
@@ -324,6 +390,9 @@ pub enum Ev {
     /// set membership of a waitable at the moment it is cancelled / dropped (M1)
     InSet { name: &'static str, handle: u32, set: Option<u32> },
     Note(&'static str, u64),
+    /// monitor observation (executor state at a callback return, work tracking,
+    /// wake-ups); not part of the behavioural trace hash
+    Mon { task: u32, key: &'static str, a: u64, b: u64 },
 }
 
 #[derive(Copy, Clone, Debug, PartialEq, Eq)]
@@ -355,6 +424,11 @@ pub struct Host {
     /// hook used by `[waitable-set-wait]` when nothing is pending: lets the
     /// host script advance.  Returns false if nothing can ever advance.
     pub advance_in_wait: bool,
+    /// async import calls (C21)
+    pub subcalls: Vec<SubRec>,
+    next_res: u32,
+    /// how often each monitor-side check was evaluated (evidence)
+    pub checks: BTreeMap<&'static str, u64>,
 }
 
 thread_local! {
@@ -389,7 +463,7 @@ impl Host {
             free: Vec::new(),
             shared: Vec::new(),
             ops: Vec::new(),
-            tasks: vec![Task { id: 0, ctx: 0, st: TaskSt::Running, returned: 0, task_cancel_calls: 0, cancel_delivered: false, callbacks: 0, codes: vec![], is_block_on: false, is_v1: false }],
+            tasks: vec![Task { id: 0, ctx: 0, st: TaskSt::Running, returned: 0, task_cancel_calls: 0, cancel_delivered: false, callbacks: 0, codes: vec![], is_block_on: false, is_v1: false, shared_ptr: 0 }],
             cur_task: 0,
             wasip3: 0,
             cur_shared_ptr: 0,
@@ -401,6 +475,9 @@ impl Host {
             lenient_waits: 0,
             next_token: 1,
             advance_in_wait: true,
+            subcalls: Vec::new(),
+            next_res: 1,
+            checks: BTreeMap::new(),
         }
     }
 
@@ -499,6 +576,7 @@ impl Host {
                     }
                     Obj::Subtask(_) => "subtask".to_string(),
                     Obj::ErrCtx(_) => "error-context".to_string(),
+                    Obj::Res { .. } => "own-resource".to_string(),
                 };
                 v.push((i as u32, d));
             }
@@ -510,7 +588,8 @@ impl Host {
 
     pub fn waitable_set_new(&mut self) -> u32 {
         let owner_shared = self.cur_shared_ptr;
-        let h = self.alloc_handle(Obj::Set { members: vec![], owner_shared });
+        let owner_task = self.cur_task;
+        let h = self.alloc_handle(Obj::Set { members: vec![], owner_shared, owner_task });
         self.call("waitable-set.new", 0, 0, h as u64);
         h
     }
@@ -636,6 +715,9 @@ impl Host {
                 let st = s.pending.take().expect("subtask event without status");
                 if st >= STATUS_RETURNED {
                     s.resolve_delivered = true;
+                }
+                if let Some(rec) = self.subcalls.get_mut(s.token as usize - 1) {
+                    rec.seen.push((st, "event"));
                 }
                 self.table[w as usize] = Some(Obj::Subtask(s));
                 (EVENT_SUBTASK, w, st)
@@ -1173,23 +1255,170 @@ impl Host {
 
     // ------------------------------------------------------------------ subtasks
 
+    /// Is the guest allocation at `addr` still live?  `true` when the ledger
+    /// cannot tell (tracking off: Miri / sanitizer shards see the access itself).
+    fn guest_block_live(addr: usize) -> bool {
+        addr == 0 || crate::alloc::is_live(addr) != Some(false)
+    }
+
+    /// The callee starts: the host lifts the lowered parameters out of guest
+    /// memory (every byte it needs is read now, never later).
+    fn sub_read_params(&mut self, token: u32) {
+        let mem = self.subcalls[token as usize - 1].mem.clone();
+        let mut ids: Vec<u32> = vec![];
+        let mut problems: Vec<String> = vec![];
+        let block_live = Self::guest_block_live(mem.block.0);
+        let mut block_reported = false;
+        let mut read_item = |id: u32, ptr: usize, len: usize, problems: &mut Vec<String>| {
+            if len > 64 {
+                problems.push(format!("corrupt-params: item {id} has implausible tag length {len}"));
+                return;
+            }
+            if len > 0 && !Self::guest_block_live(ptr) {
+                problems.push(format!("params-list-freed-before-callee-started: list data of item {id} is no longer allocated"));
+                return;
+            }
+            let mut bytes = Vec::with_capacity(len);
+            for i in 0..len {
+                bytes.push(unsafe { core::ptr::read_volatile((ptr as *const u8).add(i)) });
+            }
+            if bytes != payload::tag_for(id).as_bytes() {
+                problems.push(format!("corrupt-params: item {id} has tag bytes {bytes:?}"));
+            }
+        };
+        let mut owns: Vec<u32> = vec![];
+        for f in &mem.params {
+            let in_mem = matches!(f, PField::MemU32 { .. } | PField::MemItem { .. } | PField::MemOwn { .. });
+            if in_mem && !block_live {
+                if !block_reported {
+                    problems.push("params-block-freed-before-callee-started: the parameter block is no longer allocated when the host lifts the parameters".into());
+                    block_reported = true;
+                }
+                continue;
+            }
+            match f {
+                PField::FlatU32 { got, expect } => {
+                    if got != expect {
+                        problems.push(format!("corrupt-params: flat scalar is {got}, lowered value was {expect}"));
+                    }
+                    ids.push(*got);
+                }
+                PField::FlatItem { id, ptr, len } => {
+                    read_item(*id, *ptr, *len, &mut problems);
+                    ids.push(*id);
+                }
+                PField::FlatOwn { handle } => owns.push(*handle),
+                PField::MemU32 { addr, expect } => {
+                    let got = unsafe { core::ptr::read_volatile(*addr as *const u32) };
+                    if got != *expect {
+                        problems.push(format!("corrupt-params: scalar in the parameter block is {got}, lowered value was {expect}"));
+                    }
+                    ids.push(got);
+                }
+                PField::MemItem { addr } => {
+                    let abi = unsafe { core::ptr::read_volatile(*addr as *const ItemAbi) };
+                    read_item(abi.id, abi.ptr as usize, abi.len, &mut problems);
+                    ids.push(abi.id);
+                }
+                PField::MemOwn { addr } => owns.push(unsafe { core::ptr::read_volatile(*addr as *const u32) }),
+            }
+        }
+        for h in owns {
+            // lifting `own<R>` removes the handle from the guest's table
+            match self.obj(h) {
+                Some(Obj::Res { .. }) => self.free_handle(h),
+                _ => problems.push(format!("own-handle-not-owned: parameter handle {h} is not a resource the guest owns when the callee starts")),
+            }
+            ids.push(0x8000_0000 | h);
+        }
+        self.log.push(Ev::Peer { shared: token as usize, what: "subtask-lifts-params", arg: ids.len() as u32 });
+        let rec = &mut self.subcalls[token as usize - 1];
+        rec.params_read = Some(ids);
+        rec.problems.extend(problems);
+    }
+
+    /// The callee returns: the host lowers the result into guest memory.
+    fn sub_write_results(&mut self, token: u32) {
+        let mem = self.subcalls[token as usize - 1].mem.clone();
+        let id = 7000 + token;
+        let mut problem = None;
+        match mem.rkind {
+            RKind::None => {}
+            _ if !Self::guest_block_live(mem.block.0) => problem = Some("results-block-freed-before-callee-returned: the result area is no longer allocated when the host lowers the result".to_string()),
+            RKind::U32 => unsafe { core::ptr::write_volatile(mem.results as *mut u32, id) },
+            RKind::Item => payload::host_write_elem(Elem::Item, mem.results, id),
+        }
+        self.log.push(Ev::Peer { shared: token as usize, what: "subtask-lowers-result", arg: id });
+        let rec = &mut self.subcalls[token as usize - 1];
+        rec.result_written = Some(id);
+        rec.problems.extend(problem);
+    }
+
+    /// `resource.new`-like: the guest obtains an `own<R>` handle (C21 parameters).
+    pub fn res_new(&mut self) -> u32 {
+        let id = self.next_res;
+        self.next_res += 1;
+        let h = self.alloc_handle(Obj::Res { id });
+        self.call("resource.new", id as u64, 0, h as u64);
+        h
+    }
+
+    /// `resource.drop` of an own handle.
+    pub fn res_drop(&mut self, h: u32) {
+        self.call("resource.drop", h as u64, 0, 0);
+        if self.violated() {
+            return;
+        }
+        match self.obj(h) {
+            Some(Obj::Res { .. }) => self.free_handle(h),
+            Some(_) => self.trap(TrapKind::WrongKind, format!("resource.drop({h}): not a resource handle")),
+            None => self.trap(TrapKind::UnknownHandle, format!("resource.drop({h}): unknown handle (already transferred or dropped)")),
+        }
+    }
+
     /// An `[async-lower]` import call: the harness `Subtask::call_import`
-    /// forwards here.  Returns `status | handle << 4`.
-    pub fn subtask_start(&mut self) -> (u32, u32) {
+    /// forwards here with the guest memory the host will use.  Returns
+    /// `status | handle << 4`.
+    pub fn subtask_call(&mut self, mem: SubMem) -> u32 {
         let token = self.next_token;
         self.next_token += 1;
+        let task = self.cur_task;
+        self.subcalls.push(SubRec { token, cid: mem.cid, task, mem, ..SubRec::default() });
+        if self.violated() {
+            self.subcalls[token as usize - 1].seen.push((STATUS_RETURNED, "call"));
+            self.call("async-lower-call", token as u64, 0, STATUS_RETURNED as u64);
+            return STATUS_RETURNED;
+        }
         // 0: returned at once, 1: starting, 2: started
         let c = choose(3, "subtask-start");
-        let ret = match c {
-            0 => (STATUS_RETURNED, 0),
+        let (status, handle) = match c {
+            0 => {
+                self.sub_read_params(token);
+                self.sub_write_results(token);
+                (STATUS_RETURNED, 0)
+            }
             c => {
                 let state = if c == 1 { STATUS_STARTING } else { STATUS_STARTED };
+                if state == STATUS_STARTED {
+                    self.sub_read_params(token);
+                }
                 let h = self.alloc_handle(Obj::Subtask(Subtask { state, pending: None, resolve_delivered: false, cancel_requested: false, in_set: None, dropped: false, token }));
                 (state, h)
             }
         };
-        self.call("async-lower-call", token as u64, 0, (ret.0 | (ret.1 << 4)) as u64);
-        (ret.0 | (ret.1 << 4), token)
+        let rec = &mut self.subcalls[token as usize - 1];
+        rec.handle = handle;
+        rec.host.push(status);
+        rec.seen.push((status, "call"));
+        let packed = status | (handle << 4);
+        self.call("async-lower-call", token as u64, 0, packed as u64);
+        packed
+    }
+
+    /// Compatibility form without guest memory.
+    pub fn subtask_start(&mut self) -> (u32, u32) {
+        let packed = self.subtask_call(SubMem::default());
+        (packed, self.next_token - 1)
     }
 
     /// Subtasks that can make progress: (handle, next status)
@@ -1197,6 +1426,8 @@ impl Host {
         let mut v = vec![];
         for (i, o) in self.table.iter().enumerate() {
             if let Some(Obj::Subtask(s)) = o {
+                // (a state change while an event is still pending is
+                // indistinguishable, for the guest, from the direct transition)
                 if s.pending.is_some() || s.resolve_delivered {
                     continue;
                 }
@@ -1214,12 +1445,20 @@ impl Host {
     }
 
     pub fn subtask_advance(&mut self, h: u32, status: u32) {
+        let Some(Obj::Subtask(s)) = self.table[h as usize].clone() else { return };
+        let token = s.token;
+        if s.state == STATUS_STARTING {
+            self.sub_read_params(token);
+        }
+        if status == STATUS_RETURNED {
+            self.sub_write_results(token);
+        }
         if let Some(Obj::Subtask(s)) = self.table[h as usize].as_mut() {
             s.state = status;
             s.pending = Some(status);
-            let token = s.token;
-            self.log.push(Ev::Peer { shared: token as usize, what: "subtask-status", arg: status });
         }
+        self.subcalls[token as usize - 1].host.push(status);
+        self.log.push(Ev::Peer { shared: token as usize, what: "subtask-status", arg: status });
     }
 
     pub fn subtask_state(&self, h: u32) -> Option<Subtask> {
@@ -1229,6 +1468,8 @@ impl Host {
         }
     }
 
+    /// Synchronous `subtask.cancel` (the form the runtime imports): blocks until
+    /// the subtask has resolved and returns its final state.
     pub fn subtask_cancel(&mut self, h: u32) -> u32 {
         if self.violated() {
             self.call("subtask.cancel", h as u64, 0, STATUS_RETURNED_CANCELLED as u64);
@@ -1237,28 +1478,34 @@ impl Host {
         let ret = match self.obj(h).cloned() {
             Some(Obj::Subtask(mut s)) => {
                 self.log.push(Ev::InSet { name: "subtask.cancel", handle: h, set: s.in_set });
+                self.subcalls[s.token as usize - 1].cancels += 1;
                 if s.resolve_delivered || s.cancel_requested {
                     self.trap(TrapKind::SubtaskCancelResolved, format!("subtask.cancel({h}): subtask already resolved or cancellation already requested"));
                     STATUS_RETURNED_CANCELLED
                 } else {
                     s.cancel_requested = true;
-                    let st = if let Some(p) = s.pending.take() {
-                        // a status update is already queued: cancellation is synchronous,
-                        // so the subtask resolves one way or the other now
-                        if p >= STATUS_RETURNED {
-                            p
-                        } else {
-                            // queued STARTED: callee is running; it either returns or acknowledges
-                            if choose(2, "subtask-cancel-race") == 0 { STATUS_RETURNED_CANCELLED } else { STATUS_RETURNED }
-                        }
-                    } else {
-                        match s.state {
-                            STATUS_STARTING => STATUS_STARTED_CANCELLED,
-                            _ => {
-                                if choose(2, "subtask-cancel-race") == 0 { STATUS_RETURNED_CANCELLED } else { STATUS_RETURNED }
+                    let pending = s.pending.take();
+                    let st = match (pending, s.state) {
+                        // already resolved, event not yet delivered: that state is the answer
+                        (Some(p), _) if p >= STATUS_RETURNED => p,
+                        // not started (waiting for backpressure): cancelled before it starts
+                        (None, STATUS_STARTING) => STATUS_STARTED_CANCELLED,
+                        // the callee is running (whether or not the guest has been
+                        // told): while the caller blocks it either returns a value
+                        // or acknowledges the cancellation
+                        _ => {
+                            if choose(2, "subtask-cancel-race") == 0 {
+                                STATUS_RETURNED_CANCELLED
+                            } else {
+                                self.sub_write_results(s.token);
+                                STATUS_RETURNED
                             }
                         }
                     };
+                    if st != s.state {
+                        self.subcalls[s.token as usize - 1].host.push(st);
+                    }
+                    self.subcalls[s.token as usize - 1].seen.push((st, "cancel"));
                     s.state = st;
                     s.resolve_delivered = true;
                     self.table[h as usize] = Some(Obj::Subtask(s));
@@ -1286,6 +1533,7 @@ impl Host {
         match self.obj(h).cloned() {
             Some(Obj::Subtask(s)) => {
                 self.log.push(Ev::InSet { name: "subtask.drop", handle: h, set: s.in_set });
+                self.subcalls[s.token as usize - 1].drops += 1;
                 if !s.resolve_delivered {
                     return self.trap(TrapKind::SubtaskDropUnresolved, format!("subtask.drop({h}): subtask has not resolved"));
                 }
@@ -1305,7 +1553,7 @@ impl Host {
 
     pub fn new_task(&mut self, is_block_on: bool) -> u32 {
         let id = self.tasks.len() as u32;
-        self.tasks.push(Task { id, ctx: 0, st: TaskSt::NotStarted, returned: 0, task_cancel_calls: 0, cancel_delivered: false, callbacks: 0, codes: vec![], is_block_on, is_v1: false });
+        self.tasks.push(Task { id, ctx: 0, st: TaskSt::NotStarted, returned: 0, task_cancel_calls: 0, cancel_delivered: false, callbacks: 0, codes: vec![], is_block_on, is_v1: false, shared_ptr: 0 });
         id
     }
 
@@ -1328,6 +1576,10 @@ impl Host {
             // the runtime's own (v2) tasks point to a `SharedTaskState`
             let t = unsafe { &*(p as *const crate::cabi::Wasip3Task) };
             self.cur_shared_ptr = if t.version >= crate::cabi::WASIP3_TASK_V2 { t.ptr as usize } else { 0 };
+            let (ct, sp) = (self.cur_task as usize, self.cur_shared_ptr);
+            if ct != 0 {
+                self.tasks[ct].shared_ptr = sp;
+            }
         }
         self.call("wasip3_task_set", (p != 0) as u64, 0, (prev != 0) as u64);
         prev
